@@ -138,6 +138,8 @@ class Constructs(abstract.Container):
             if _view:
                 self.__dict__ = source.__dict__.copy()
                 self._ignore = _ignore
+                # The constructs of which this is a view
+                self._view_source = getattr(source, "_view_source", source)
                 return
 
             source_constructs = source._constructs
@@ -443,6 +445,43 @@ class Constructs(abstract.Container):
         """
         return construct_type.replace("_", " ")
 
+    def _domain_axis_spanned_by(self, key, field=True):
+        """Describe a data array that spans a domain axis construct.
+
+        All constructs are checked, including any that are ignored by
+        a view (such as the field ancillary constructs, and the data,
+        of a field whose constructs are being accessed via its
+        domain).
+
+        .. versionadded:: (cfdm) NEXTVERSION
+
+        :Parameters:
+
+            key: `str`
+                The domain axis construct identifier.
+
+            field: `bool`, optional
+                If False then do not check the data of the parent
+                field construct.
+
+        :Returns:
+
+            `str` or `None`
+                A description of the first found data array which
+                spans the domain axis, or `None` if there isn't one.
+
+        """
+        for xid, axes in self._construct_axes.items():
+            if key in axes:
+                return f"metadata construct {xid!r}"
+
+        if field:
+            source = getattr(self, "_view_source", self)
+            if key in (source._field_data_axes or ()):
+                return "the field construct"
+
+        return None
+
     def _del_construct(self, key, default=ValueError()):
         """Remove a metadata construct.
 
@@ -483,24 +522,27 @@ class Constructs(abstract.Container):
         >>> x = c._del_construct('auxiliarycoordinate2')
 
         """
-        data_axes = self.data_axes()
-
         domain_axes = self._construct_dict("domain_axis")
 
         if key in domain_axes:
             # Fail if the domain axis construct is spanned by a data
-            # array
-            for xid, axes in data_axes.items():
-                if key in axes:
-                    if default is None:
-                        return default
+            # array. All constructs are checked, including any that
+            # are ignored by a view (such as the field ancillary and
+            # cell method constructs, and the data, of a field whose
+            # constructs are being accessed via its domain).
+            spanned_by = self._domain_axis_spanned_by(
+                key, field=hasattr(self, "_view_source")
+            )
+            if spanned_by is not None:
+                if default is None:
+                    return default
 
-                    raise ValueError(
-                        f"Can't remove domain axis construct {key!r} that "
-                        f"spans the data array of metadata construct {xid!r}"
-                    )
+                raise ValueError(
+                    f"Can't remove domain axis construct {key!r} that "
+                    f"spans the data array of {spanned_by}"
+                )
 
-            cell_methods = self._construct_dict("cell_method")
+            cell_methods = self._constructs.get("cell_method", {})
             for xid, cm in cell_methods.items():
                 if key in cm.get_axes(()):
                     if default is None:
@@ -636,11 +678,42 @@ class Constructs(abstract.Container):
         if key is None:
             # Create a new construct identifier
             key = self.new_identifier(construct_type)
+        else:
+            existing_type = self._construct_type.get(key)
+            if existing_type is not None and existing_type != construct_type:
+                # The identifier is in use by a construct of another
+                # type
+                raise ValueError(
+                    f"Can't set {construct!r}: Identifier {key!r} is "
+                    "already in use by a "
+                    f"{self._construct_type_description(existing_type)} "
+                    "construct"
+                )
+
+        if construct_type == "domain_axis":
+            existing = self._constructs[construct_type].get(key)
+            if (
+                existing is not None
+                and existing.get_size(None) != construct.get_size(None)
+                and self._domain_axis_spanned_by(key) is not None
+            ):
+                # Replacing a domain axis construct must not change
+                # the size of an axis that is spanned by data
+                raise ValueError(
+                    f"Can't set {construct!r}: Can't change the size of "
+                    f"domain axis construct {key!r} that spans the data "
+                    f"array of {self._domain_axis_spanned_by(key)}"
+                )
 
         if construct_type in self._array_constructs:
             # ---------------------------------------------------------
             # The construct could have a data array
             # ---------------------------------------------------------
+            if axes is None:
+                # Check the construct against the domain axes already
+                # set for an existing construct that is being replaced
+                axes = self._construct_axes.get(key)
+
             if axes is not None:
                 self._set_construct_data_axes(
                     key=key, axes=axes, construct=construct
@@ -717,6 +790,14 @@ class Constructs(abstract.Container):
                 )
 
             construct = self[key]
+
+        if construct.construct_type not in self._array_constructs:
+            raise ValueError(
+                f"Can't set {construct!r} domain axes: Can't provide domain "
+                "axis constructs for "
+                f"{self._construct_type_description(construct.construct_type)} "
+                "construct"
+            )
 
         if isinstance(axes, str):
             axes = (axes,)
@@ -1293,7 +1374,7 @@ class Constructs(abstract.Container):
         n = len(keys)
         key_base = self._key_base[construct_type]
         key = f"{key_base}{n}"
-        while key in keys:
+        while key in self._construct_type:
             n += 1
             key = f"{key_base}{n}"
 
